@@ -429,6 +429,26 @@ def same(a, b):
     return a == b
 
 
+def snapshot_and_edit(r):
+    """deep copy of a result; the original arrays are then overwritten in place (history: the caller edits what it got)."""
+    import copy
+    snap = copy.deepcopy(r)
+
+    def edit(x):
+        if isinstance(x, np.ndarray) and x.flags.writeable and x.size:
+            x[...] = 1 if x.dtype.kind in 'iub' else x * 0 + 2.5
+        elif isinstance(x, (tuple, list)):
+            for y in x:
+                edit(y)
+        elif hasattr(x, 'F2'):
+            edit(x.F2)
+    try:
+        edit(r)
+    except Exception:
+        pass
+    return snap
+
+
 def noise(ctx, numqi, rng):
     """a random interleaving of other consumers of randomness; returns a description."""
     import torch
@@ -463,6 +483,7 @@ def pair(ctx, numqi, name, f, args, kwargs, seed):
     ctx.set_case({'function': name, 'args': args, 'kwargs': kwargs, 'seed': seed})
     with ctx.guard(f'call/{name}'):
         r1 = f(*args, **kwargs, seed=seed)
+        r1 = snapshot_and_edit(r1)  # keep a copy, overwrite the returned arrays in place (a cached / aliased result would poison the repeat)
         ops = noise(ctx, numqi, rng)
         r2 = f(*args, **kwargs, seed=seed)
         nt = any(o.startswith(('np.random', 'random', 'torch')) for o in ops) and any('unseeded' in o or o == 'default_rng()' for o in ops)
